@@ -4,7 +4,7 @@ panicked, held by nobody) never grows in a core that satisfies the MTU invariant
 `Input` refuses segment lengths above `mtuLimit` before `parse_data` copies, and `Send` slices at most
 `mss ≤ mtuLimit` bytes — so "no leak" holds without exception.  Core Lean only.
 -/
-import KcpVerif.Lemmas.KcpOwnOps
+import KcpVerif.Lemmas.KcpOwnAligned
 import KcpVerif.Lemmas.KcpMss
 
 namespace KcpVerif.Own
@@ -72,25 +72,44 @@ theorem parseDataO_lost (k : Kcp) (s : Seg) (rb rq : List SegO) (g : Ghost) (h :
   · rename_i hgt; omega
   · rfl
 
-theorem inBodyO_lost (regular : Bool) (data : Bytes) (st : InLoopO) (h : (rd32 data 20).toNat ≤ mtuLimit) :
+/-- `shrink_buf` pops only segments that have already given their buffer back -/
+theorem dropAckedO_lost (l : List SegO) (g : Ghost) (h : ∀ x ∈ l, SbOk x) : (dropAckedO l g).g.lost = g.lost := by
+  induction l generalizing g with
+  | nil => rfl
+  | cons x rest ih =>
+    unfold dropAckedO
+    split
+    · rename_i ha
+      have hn : x.buf = none := (h x (List.mem_cons_self ..)).2 ha
+      rw [ih _ (fun z hz => h z (List.mem_cons_of_mem _ hz)), hn]; rfl
+    · rfl
+
+theorem inBodyO_lost (regular : Bool) (data : Bytes) (st : InLoopO) (ha : AlignedL st)
+    (h : (rd32 data 20).toNat ≤ mtuLimit) :
     (inBodyO regular data st).gh.lost = st.gh.lost := by
+  have hu0 : ∀ x ∈ (unaO (rd32 data 16) st.sb st.gh).l, SbOk x := fun x hx => ha.sb x (unaO_mem _ _ _ x hx)
+  have hul : (dropAckedO (unaO (rd32 data 16) st.sb st.gh).l (unaO (rd32 data 16) st.sb st.gh).g).g.lost = st.gh.lost := by
+    rw [dropAckedO_lost _ _ hu0, unaO_lost]
+  have hu : ∀ x ∈ (dropAckedO (unaO (rd32 data 16) st.sb st.gh).l (unaO (rd32 data 16) st.sb st.gh).g).l, SbOk x :=
+    fun x hx => hu0 x (dropAckedO_mem _ _ x hx)
   unfold inBodyO
   simp only []
+  generalize dropAckedO (unaO (rd32 data 16) st.sb st.gh).l (unaO (rd32 data 16) st.sb st.gh).g = u at hul hu ⊢
   split
-  · split
-    · exact unaO_lost _ _ _
-    · show (ackLoopO _ _ _).g.lost = _
-      rw [ackLoopO_lost, unaO_lost]
+  · show (dropAckedO _ _).g.lost = _
+    split
+    · rw [dropAckedO_lost _ _ hu, hul]
+    · rw [dropAckedO_lost _ _ (ackLoopO_sbOk _ _ _ hu), ackLoopO_lost, hul]
   · split
     · split
       · show (parseDataO _ _ _ _ _).g.lost = _
-        rw [parseDataO_lost, unaO_lost]
+        rw [parseDataO_lost, hul]
         show ((data.drop IKCP_OVERHEAD).take (rd32 data 20).toNat).length ≤ mtuLimit
         rw [List.length_take]; omega
-      · exact unaO_lost _ _ _
-    · exact unaO_lost _ _ _
+      · exact hul
+    · exact hul
 
-theorem inputLoopO_lost (regular : Bool) (fuel : Nat) (data : Bytes) (st : InLoopO) :
+theorem inputLoopO_lost (regular : Bool) (fuel : Nat) (data : Bytes) (st : InLoopO) (hs : SyncL st) (ha : AlignedL st) :
     (inputLoopO regular fuel data st).gh.lost = st.gh.lost := by
   induction fuel generalizing data st with
   | zero => rfl
@@ -103,8 +122,9 @@ theorem inputLoopO_lost (regular : Bool) (fuel : Nat) (data : Bytes) (st : InLoo
     have hlen : (rd32 data 20).toNat ≤ mtuLimit := by omega
     split; · rfl
     split
-    · exact inBodyO_lost regular data st hlen
-    · rw [ih]; exact inBodyO_lost regular data st hlen
+    · exact inBodyO_lost regular data st ha hlen
+    · rw [ih _ _ (inBodyO_sync regular data hs) (inBodyO_al regular data hs ha)]
+      exact inBodyO_lost regular data st ha hlen
 
 theorem flushO_lost (o : KcpO) (full : Bool) (now : U32) : (flushO o full now).o.gh.lost = o.gh.lost := by
   unfold flushO
@@ -126,11 +146,12 @@ theorem recvO_lost (o : KcpO) (n : Nat) : (recvO o n).o.gh.lost = o.gh.lost := b
   split; · rfl
   exact popMsgO_lost _ _
 
-/-- `Input` never drops a buffer, whatever the bytes: the length check precedes the copy -/
-theorem inputO_lost (o : KcpO) (data : Bytes) (regular ackNoDelay : Bool) (now : U32) :
+/-- `Input` never drops a buffer, whatever the bytes: the length check precedes the copy, and
+`shrink_buf` pops only acked segments, which have given their buffer back (alignment) -/
+theorem inputO_lost (o : KcpO) (hs : Sync o) (ha : Aligned o) (data : Bytes) (regular ackNoDelay : Bool) (now : U32) :
     (inputO o data regular ackNoDelay now).o.gh.lost = o.gh.lost := by
   have hl := inputLoopO_lost regular (data.length / IKCP_OVERHEAD + 1) data
-    { m := { k := o.k }, sb := o.sb, rb := o.rb, rq := o.rq, gh := o.gh }
+    { m := { k := o.k }, sb := o.sb, rb := o.rb, rq := o.rq, gh := o.gh } ⟨hs.sb, hs.rb, hs.rq⟩ ⟨ha.sb, ha.rb, ha.rq⟩
   unfold inputO
   simp only []
   split; · rfl
